@@ -157,8 +157,17 @@ func main() {
 """
 
 
+SCOPES = ["top", "f", "g"]         # main() fills vs / ts in this order
+
+
+def order(values):
+    """the index order of the values in the program: by scope, then argument, then producer"""
+    return sorted(values, key=lambda v: (SCOPES.index(ARGS[v[1]][0]), v[1], v[0]))
+
+
 def render(values):
-    """values: list of (producer, argname) in index order"""
+    """values: list of (producer, argname) in index order (see order())"""
+    assert list(values) == order(values)
     scopes = {"top": [], "f": [], "g": []}
     for p, a in values:
         sc, te = ARGS[a]
@@ -231,10 +240,11 @@ def run(chk, thorough):
     if len(head) != 1 or len(cases) != head[0]["nvalues"] ** 2 or len(cases) < 3000:
         raise C.Undecided("GenericLocal emitted %d header(s) and %d pairs" % (len(head), len(cases)))
     nkeys = head[0]["nclasses"]
-    values = sorted({(c["p1"], c["a1"]) for c in cases}, key=lambda v: (ARGS[v[1]][0], v[1], v[0]))
+    values = {(c["p1"], c["a1"]) for c in cases}
     unknown = [v for v in values if v[0] not in PRODUCERS or v[1] not in ARGS]
     if unknown:
         raise C.Undecided("no Go rendering for %s" % unknown[:3])
+    values = order(values)
     idx = {v: i for i, v in enumerate(values)}
     expect, classsize, kinds = {}, {}, {}
     for c in cases:
